@@ -864,11 +864,13 @@ func (l *Local) Dispose(n int) int {
 	}
 
 	// 3. dispose idle
-	left := min(len(l.ipv4.Idles()), n)
+	// the primary address can not be unassigned: it is neither counted nor picked, so the
+	// number reported to the pool balancer is what is really disposed
+	left := min(disposable(l.ipv4), n)
 
 	for i := 0; i < left; i++ {
 		for _, v := range l.ipv4 {
-			if v.InUse() || v.Deleting() {
+			if v.InUse() || v.Deleting() || v.Primary() {
 				continue
 			}
 			v.Dispose() // small problem for primary ip
@@ -879,11 +881,11 @@ func (l *Local) Dispose(n int) int {
 		}
 	}
 
-	left6 := min(len(l.ipv6.Idles()), n)
+	left6 := min(disposable(l.ipv6), n)
 
 	for i := 0; i < left6; i++ {
 		for _, v := range l.ipv6 {
-			if v.InUse() || v.Deleting() {
+			if v.InUse() || v.Deleting() || v.Primary() {
 				continue
 			}
 			v.Dispose()
@@ -895,6 +897,17 @@ func (l *Local) Dispose(n int) int {
 	}
 
 	return max(left, left6)
+}
+
+// disposable counts the idle addresses Dispose can really hand back.
+func disposable(s Set) int {
+	n := 0
+	for _, v := range s {
+		if !v.InUse() && !v.Deleting() && !v.Primary() {
+			n++
+		}
+	}
+	return n
 }
 
 func (l *Local) factoryDisposeWorker(ctx context.Context) {
